@@ -1045,6 +1045,8 @@ func New(saveMethod func(t Treasure, guardID guard.ID) TreasureStatus) Treasure 
 // LoadFromClone loads the treasure from a clone
 func (t *treasure) LoadFromClone(guardID guard.ID, clone Treasure) {
 	_ = t.Guard.CanExecute(guardID)
+	t.mu.Lock()
+	defer t.mu.Unlock()
 	t.treasure = clone.(*treasure).treasure
 }
 
@@ -1104,6 +1106,8 @@ func (t *treasure) GetContentType() ContentType {
 
 func (t *treasure) ResetContentByteArray(guardID guard.ID) {
 	_ = t.Guard.CanExecute(guardID)
+	t.mu.Lock()
+	defer t.mu.Unlock()
 	if t.treasure.Content != nil && t.treasure.Content.ByteArray != nil {
 		t.contentChanged = true
 		t.contentTypeChanged = true
@@ -1112,6 +1116,8 @@ func (t *treasure) ResetContentByteArray(guardID guard.ID) {
 }
 func (t *treasure) ResetContentBool(guardID guard.ID) {
 	_ = t.Guard.CanExecute(guardID)
+	t.mu.Lock()
+	defer t.mu.Unlock()
 	if t.treasure.Content != nil && t.treasure.Content.Boolean != nil {
 		t.contentChanged = true
 		t.contentTypeChanged = true
@@ -1120,6 +1126,8 @@ func (t *treasure) ResetContentBool(guardID guard.ID) {
 }
 func (t *treasure) ResetContentFloat32(guardID guard.ID) {
 	_ = t.Guard.CanExecute(guardID)
+	t.mu.Lock()
+	defer t.mu.Unlock()
 	if t.treasure.Content != nil && t.treasure.Content.Float32 != nil {
 		t.contentChanged = true
 		t.contentTypeChanged = true
@@ -1128,6 +1136,8 @@ func (t *treasure) ResetContentFloat32(guardID guard.ID) {
 }
 func (t *treasure) ResetContentFloat64(guardID guard.ID) {
 	_ = t.Guard.CanExecute(guardID)
+	t.mu.Lock()
+	defer t.mu.Unlock()
 	if t.treasure.Content != nil && t.treasure.Content.Float64 != nil {
 		t.contentChanged = true
 		t.contentTypeChanged = true
@@ -1136,6 +1146,8 @@ func (t *treasure) ResetContentFloat64(guardID guard.ID) {
 }
 func (t *treasure) ResetContentUint8(guardID guard.ID) {
 	_ = t.Guard.CanExecute(guardID)
+	t.mu.Lock()
+	defer t.mu.Unlock()
 	if t.treasure.Content != nil && t.treasure.Content.Uint8 != nil {
 		t.contentChanged = true
 		t.contentTypeChanged = true
@@ -1144,6 +1156,8 @@ func (t *treasure) ResetContentUint8(guardID guard.ID) {
 }
 func (t *treasure) ResetContentUint16(guardID guard.ID) {
 	_ = t.Guard.CanExecute(guardID)
+	t.mu.Lock()
+	defer t.mu.Unlock()
 	if t.treasure.Content != nil && t.treasure.Content.Uint16 != nil {
 		t.contentChanged = true
 		t.contentTypeChanged = true
@@ -1152,6 +1166,8 @@ func (t *treasure) ResetContentUint16(guardID guard.ID) {
 }
 func (t *treasure) ResetContentUint32(guardID guard.ID) {
 	_ = t.Guard.CanExecute(guardID)
+	t.mu.Lock()
+	defer t.mu.Unlock()
 	if t.treasure.Content != nil && t.treasure.Content.Uint32 != nil {
 		t.contentChanged = true
 		t.contentTypeChanged = true
@@ -1160,6 +1176,8 @@ func (t *treasure) ResetContentUint32(guardID guard.ID) {
 }
 func (t *treasure) ResetContentUint64(guardID guard.ID) {
 	_ = t.Guard.CanExecute(guardID)
+	t.mu.Lock()
+	defer t.mu.Unlock()
 	if t.treasure.Content != nil && t.treasure.Content.Uint64 != nil {
 		t.contentChanged = true
 		t.contentTypeChanged = true
@@ -1168,6 +1186,8 @@ func (t *treasure) ResetContentUint64(guardID guard.ID) {
 }
 func (t *treasure) ResetContentInt8(guardID guard.ID) {
 	_ = t.Guard.CanExecute(guardID)
+	t.mu.Lock()
+	defer t.mu.Unlock()
 	if t.treasure.Content != nil && t.treasure.Content.Int8 != nil {
 		t.contentChanged = true
 		t.contentTypeChanged = true
@@ -1176,6 +1196,8 @@ func (t *treasure) ResetContentInt8(guardID guard.ID) {
 }
 func (t *treasure) ResetContentInt16(guardID guard.ID) {
 	_ = t.Guard.CanExecute(guardID)
+	t.mu.Lock()
+	defer t.mu.Unlock()
 	if t.treasure.Content != nil && t.treasure.Content.Int16 != nil {
 		t.contentChanged = true
 		t.contentTypeChanged = true
@@ -1184,6 +1206,8 @@ func (t *treasure) ResetContentInt16(guardID guard.ID) {
 }
 func (t *treasure) ResetContentInt32(guardID guard.ID) {
 	_ = t.Guard.CanExecute(guardID)
+	t.mu.Lock()
+	defer t.mu.Unlock()
 	if t.treasure.Content != nil && t.treasure.Content.Int32 != nil {
 		t.contentChanged = true
 		t.contentTypeChanged = true
@@ -1192,6 +1216,8 @@ func (t *treasure) ResetContentInt32(guardID guard.ID) {
 }
 func (t *treasure) ResetContentInt64(guardID guard.ID) {
 	_ = t.Guard.CanExecute(guardID)
+	t.mu.Lock()
+	defer t.mu.Unlock()
 	if t.treasure.Content != nil && t.treasure.Content.Int64 != nil {
 		t.contentChanged = true
 		t.contentTypeChanged = true
@@ -1200,6 +1226,8 @@ func (t *treasure) ResetContentInt64(guardID guard.ID) {
 }
 func (t *treasure) ResetContentUint32Slice(guardID guard.ID) {
 	_ = t.Guard.CanExecute(guardID)
+	t.mu.Lock()
+	defer t.mu.Unlock()
 	if t.treasure.Content != nil && t.treasure.Content.Uint32Slice != nil {
 		t.contentChanged = true
 		t.contentTypeChanged = true
@@ -1209,6 +1237,8 @@ func (t *treasure) ResetContentUint32Slice(guardID guard.ID) {
 
 func (t *treasure) ResetContentString(guardID guard.ID) {
 	_ = t.Guard.CanExecute(guardID)
+	t.mu.Lock()
+	defer t.mu.Unlock()
 	if t.treasure.Content != nil && t.treasure.Content.String != nil {
 		t.contentChanged = true
 		t.contentTypeChanged = true
@@ -1217,6 +1247,8 @@ func (t *treasure) ResetContentString(guardID guard.ID) {
 }
 func (t *treasure) ResetContentVoid(guardID guard.ID) {
 	_ = t.Guard.CanExecute(guardID)
+	t.mu.Lock()
+	defer t.mu.Unlock()
 	if t.treasure.Content != nil && t.treasure.Content.Void {
 		t.contentTypeChanged = true
 		t.contentChanged = true
@@ -1226,11 +1258,15 @@ func (t *treasure) ResetContentVoid(guardID guard.ID) {
 
 func (t *treasure) SetCreatedBy(guardID guard.ID, createdBy string) {
 	_ = t.Guard.CanExecute(guardID)
+	t.mu.Lock()
+	defer t.mu.Unlock()
 	t.createdByChanged = true
 	t.treasure.CreatedBy = createdBy
 }
 func (t *treasure) SetModifiedBy(guardID guard.ID, modifiedBy string) {
 	_ = t.Guard.CanExecute(guardID)
+	t.mu.Lock()
+	defer t.mu.Unlock()
 	t.modifiedByChanged = true
 	t.treasure.ModifiedBy = modifiedBy
 }
@@ -1333,10 +1369,10 @@ func (t *treasure) SetContent(guardID guard.ID, content Content) {
 
 	_ = t.Guard.CanExecute(guardID)
 
-	t.contentChanged = false
-	if t.IsContentTypeChanged() {
-		t.contentChanged = true
-	}
+	t.mu.Lock()
+	defer t.mu.Unlock()
+
+	t.contentChanged = t.contentTypeChanged
 
 	t.treasure.Content = &content
 
@@ -1425,6 +1461,8 @@ func (t *treasure) BodySetFileName(guardID guard.ID, fileName string) {
 	if canExecuteErr := t.Guard.CanExecute(guardID); canExecuteErr != nil {
 		return
 	}
+	t.mu.Lock()
+	defer t.mu.Unlock()
 	// does not increase the version because the fileName is not part of the content
 	t.treasure.FileName = &fileName
 }
@@ -1433,6 +1471,8 @@ func (t *treasure) BodySetForDeletion(guardID guard.ID, byUserID string, shadowD
 	if canExecuteErr := t.Guard.CanExecute(guardID); canExecuteErr != nil {
 		return
 	}
+	t.mu.Lock()
+	defer t.mu.Unlock()
 	timeNow := time.Now().UTC().UnixNano()
 
 	t.deletedAtChanged = true
@@ -1462,6 +1502,8 @@ func (t *treasure) GetKey() string {
 
 func (t *treasure) SetExpirationTime(guardID guard.ID, expirationTime time.Time) {
 	_ = t.Guard.CanExecute(guardID)
+	t.mu.Lock()
+	defer t.mu.Unlock()
 	t.expirationTimeChanged = true
 	// A zero time.Time means "no expiration" (matches the ExpirationTime == 0
 	// convention used by IsExpired and the EXPIRATION_TIME index). UnixNano
@@ -1512,6 +1554,8 @@ func (t *treasure) GetShadowDelete() bool {
 
 func (t *treasure) SetModifiedAt(guardID guard.ID, modifiedAt time.Time) {
 	_ = t.Guard.CanExecute(guardID)
+	t.mu.Lock()
+	defer t.mu.Unlock()
 	t.modifiedAtChanged = true
 	t.treasure.ModifiedAt = modifiedAt.UTC().UnixNano()
 }
@@ -1539,6 +1583,8 @@ func (t *treasure) BodySetKey(guardID guard.ID, key string) {
 	if canExecuteErr := t.Guard.CanExecute(guardID); canExecuteErr != nil {
 		return // do nothing
 	}
+	t.mu.Lock()
+	defer t.mu.Unlock()
 	t.treasure.DeletedBy = ""
 	t.treasure.DeletedAt = 0
 	t.treasure.Key = key
@@ -1696,6 +1742,8 @@ func (t *treasure) LoadFromByte(guardID guard.ID, b []byte, fileName string) err
 	if canExecuteErr := t.Guard.CanExecute(guardID); canExecuteErr != nil {
 		return canExecuteErr
 	}
+	t.mu.Lock()
+	defer t.mu.Unlock()
 
 	// bináris adat betöltése
 	buf := bytes.NewReader(b)
@@ -1716,6 +1764,8 @@ func (t *treasure) LoadFromByte(guardID guard.ID, b []byte, fileName string) err
 
 func (t *treasure) SetContentVoid(guardID guard.ID) {
 	_ = t.Guard.CanExecute(guardID)
+	t.mu.Lock()
+	defer t.mu.Unlock()
 
 	// if the content is not changed, do nothing
 	if t.treasure.Content != nil && t.treasure.Content.Void {
@@ -1737,6 +1787,8 @@ func (t *treasure) SetContentVoid(guardID guard.ID) {
 
 func (t *treasure) SetContentString(guardID guard.ID, content string) {
 	_ = t.Guard.CanExecute(guardID)
+	t.mu.Lock()
+	defer t.mu.Unlock()
 
 	// if the content is not changed, do nothing
 	if t.treasure.Content != nil && t.treasure.Content.String != nil && *t.treasure.Content.String == content {
@@ -1751,6 +1803,8 @@ func (t *treasure) SetContentString(guardID guard.ID, content string) {
 
 func (t *treasure) SetContentUint8(guardID guard.ID, content uint8) {
 	_ = t.Guard.CanExecute(guardID)
+	t.mu.Lock()
+	defer t.mu.Unlock()
 	// if the content is not changed, do nothing
 	if t.treasure.Content != nil && t.treasure.Content.Uint8 != nil && *t.treasure.Content.Uint8 == content {
 		return
@@ -1762,6 +1816,8 @@ func (t *treasure) SetContentUint8(guardID guard.ID, content uint8) {
 }
 func (t *treasure) SetContentUint16(guardID guard.ID, content uint16) {
 	_ = t.Guard.CanExecute(guardID)
+	t.mu.Lock()
+	defer t.mu.Unlock()
 	// if the content is not changed, do nothing
 	if t.treasure.Content != nil && t.treasure.Content.Uint16 != nil && *t.treasure.Content.Uint16 == content {
 		return
@@ -1773,6 +1829,8 @@ func (t *treasure) SetContentUint16(guardID guard.ID, content uint16) {
 }
 func (t *treasure) SetContentUint32(guardID guard.ID, content uint32) {
 	_ = t.Guard.CanExecute(guardID)
+	t.mu.Lock()
+	defer t.mu.Unlock()
 	// if the content is not changed, do nothing
 	if t.treasure.Content != nil && t.treasure.Content.Uint32 != nil && *t.treasure.Content.Uint32 == content {
 		return
@@ -1784,6 +1842,8 @@ func (t *treasure) SetContentUint32(guardID guard.ID, content uint32) {
 }
 func (t *treasure) SetContentUint64(guardID guard.ID, content uint64) {
 	_ = t.Guard.CanExecute(guardID)
+	t.mu.Lock()
+	defer t.mu.Unlock()
 	// if the content is not changed, do nothing
 	if t.treasure.Content != nil && t.treasure.Content.Uint64 != nil && *t.treasure.Content.Uint64 == content {
 		return
@@ -1795,6 +1855,8 @@ func (t *treasure) SetContentUint64(guardID guard.ID, content uint64) {
 }
 func (t *treasure) SetContentInt8(guardID guard.ID, content int8) {
 	_ = t.Guard.CanExecute(guardID)
+	t.mu.Lock()
+	defer t.mu.Unlock()
 	// if the content is not changed, do nothing
 	if t.treasure.Content != nil && t.treasure.Content.Int8 != nil && *t.treasure.Content.Int8 == content {
 		return
@@ -1806,6 +1868,8 @@ func (t *treasure) SetContentInt8(guardID guard.ID, content int8) {
 }
 func (t *treasure) SetContentInt16(guardID guard.ID, content int16) {
 	_ = t.Guard.CanExecute(guardID)
+	t.mu.Lock()
+	defer t.mu.Unlock()
 	// if the content is not changed, do nothing
 	if t.treasure.Content != nil && t.treasure.Content.Int16 != nil && *t.treasure.Content.Int16 == content {
 		return
@@ -1817,6 +1881,8 @@ func (t *treasure) SetContentInt16(guardID guard.ID, content int16) {
 }
 func (t *treasure) SetContentInt32(guardID guard.ID, content int32) {
 	_ = t.Guard.CanExecute(guardID)
+	t.mu.Lock()
+	defer t.mu.Unlock()
 	// if the content is not changed, do nothing
 	if t.treasure.Content != nil && t.treasure.Content.Int32 != nil && *t.treasure.Content.Int32 == content {
 		return
@@ -1829,6 +1895,8 @@ func (t *treasure) SetContentInt32(guardID guard.ID, content int32) {
 func (t *treasure) SetContentInt64(guardID guard.ID, content int64) {
 
 	_ = t.Guard.CanExecute(guardID)
+	t.mu.Lock()
+	defer t.mu.Unlock()
 
 	// if the content is not changed, do nothing
 	if t.treasure.Content != nil && t.treasure.Content.Int64 != nil && *t.treasure.Content.Int64 == content {
@@ -1843,6 +1911,8 @@ func (t *treasure) SetContentInt64(guardID guard.ID, content int64) {
 
 func (t *treasure) SetContentFloat32(guardID guard.ID, content float32) {
 	_ = t.Guard.CanExecute(guardID)
+	t.mu.Lock()
+	defer t.mu.Unlock()
 
 	// if treasure content is not changed, do nothing
 	if t.treasure.Content != nil && t.treasure.Content.Float32 != nil && *t.treasure.Content.Float32 == content {
@@ -1857,6 +1927,8 @@ func (t *treasure) SetContentFloat32(guardID guard.ID, content float32) {
 
 func (t *treasure) SetContentFloat64(guardID guard.ID, content float64) {
 	_ = t.Guard.CanExecute(guardID)
+	t.mu.Lock()
+	defer t.mu.Unlock()
 
 	// if treasure content is not changed, do nothing
 	if t.treasure.Content != nil && t.treasure.Content.Float64 != nil && *t.treasure.Content.Float64 == content {
@@ -1871,6 +1943,8 @@ func (t *treasure) SetContentFloat64(guardID guard.ID, content float64) {
 
 func (t *treasure) SetContentBool(guardID guard.ID, content bool) {
 	_ = t.Guard.CanExecute(guardID)
+	t.mu.Lock()
+	defer t.mu.Unlock()
 
 	// if treasure content is not changed, do nothing
 	if t.treasure.Content != nil && t.treasure.Content.Boolean != nil && *t.treasure.Content.Boolean == content {
@@ -1886,6 +1960,8 @@ func (t *treasure) SetContentBool(guardID guard.ID, content bool) {
 
 func (t *treasure) SetContentByteArray(guardID guard.ID, content []byte) {
 	_ = t.Guard.CanExecute(guardID)
+	t.mu.Lock()
+	defer t.mu.Unlock()
 	// if the content is not changed, do nothing
 	if t.treasure.Content != nil && t.treasure.Content.ByteArray != nil && bytes.Equal(t.treasure.Content.ByteArray, content) {
 		return
@@ -1899,6 +1975,8 @@ func (t *treasure) SetContentByteArray(guardID guard.ID, content []byte) {
 // SetCreatedAt set the created at of the treasure to the current time without locking the mutex
 func (t *treasure) SetCreatedAt(guardID guard.ID, createdAt time.Time) {
 	_ = t.Guard.CanExecute(guardID)
+	t.mu.Lock()
+	defer t.mu.Unlock()
 	t.createdAtChanged = true
 	t.treasure.CreatedAt = createdAt.UTC().UnixNano()
 }
